@@ -123,6 +123,18 @@ class TermAnalysis:
             return self._resolve_ref(fn, rv[1])
         return None
 
+    def _self_field(self, fn, op):
+        """first-level field of *self that a reference operand points into (None if it is not rooted at self)"""
+        from .arms import ArmSummarizer
+        if not hasattr(self, '_summ'):
+            self._summ = ArmSummarizer(self.g)
+        if op[0] not in ('c', 'm'):
+            return None
+        base, names = self._summ.root_of(fn, op[1], depth=10)
+        if base == 1 and names:
+            return names[0]
+        return None
+
     def _derives_from_self(self, fn, op, depth=8):
         """does operand (a reference) point into *self (arg 1)?"""
         if op[0] not in ('c', 'm'):
@@ -161,6 +173,7 @@ class TermAnalysis:
         work = [0]
         failures = []
         fail_seen = set()
+        err_fields = []     # (block, fields of *self emptied/reset, delegated) per Err-returning state (t2)
         iters = 0
         while work:
             b = work.pop()
@@ -178,6 +191,9 @@ class TermAnalysis:
                         continue
                     pl, rv = st[1], st[2]
                     if len(pl) != 1:
+                        if pl[0] == 1 and len(pl) == 3 and pl[1] == '*' and isinstance(pl[2], list) and pl[2][0] == 'f' \
+                                and rv[0] in ('agg', 'use'):
+                            facts.add(('ef', str(pl[2][2] if pl[2][2] is not None else pl[2][1])))   # `self.f = None / fresh value`
                         continue
                     x = pl[0]
                     facts = {f for f in facts if x not in f[1:]}
@@ -241,6 +257,9 @@ class TermAnalysis:
                     if path.startswith(READER) or (f.get('trait') == 'read::reader::Reader'):
                         if name == 'empty':
                             E = True
+                            fld = self._self_field(fn, args[0]) if args else None
+                            if fld:
+                                facts.add(('ef', fld))
                         elif name == 'is_empty' and x is not None:
                             facts.add(('isempty', x))
                         elif name in CONSUME_ALWAYS and x is not None:
@@ -273,6 +292,9 @@ class TermAnalysis:
                         tgts = g.callee_targets(f)
                         if tgts and args and self._derives_from_self(fn, args[0]) and all(self.is_emptier(t) for t in tgts):
                             E = True
+                            fld = self._self_field(fn, args[0])
+                            if fld:
+                                facts.add(('ef', fld))
                         if tgts and x is not None:
                             if all(self.summ('tp', t) for t in tgts):
                                 facts.add(('tp', x))
@@ -354,6 +376,10 @@ class TermAnalysis:
                         if want == 't2':
                             if not st_ok and not E and ('te', 0) not in facts:
                                 reason = 'may return Err without emptying the reader'
+                            elif not st_ok:
+                                srcs_ = [int(ff[1][1:]) for ff in facts if ff[0] == 'src']
+                                err_fields.append((srcs_[0] if srcs_ else b, frozenset(ff[1] for ff in facts if ff[0] == 'ef'),
+                                                   ('te', 0) in facts))
                         elif want == 'te':
                             if not st_ok and not E and ('te', 0) not in facts:
                                 reason = 'Err without empty'
@@ -393,7 +419,7 @@ class TermAnalysis:
                         # what is known about the return place (their correlation is the point)
                         groups = {}
                         for s in cur | new:
-                            r0 = frozenset(ff for ff in s[3] if (ff[1] == 0 and len(ff) == 2) or ff[0] == 'src')
+                            r0 = frozenset(ff for ff in s[3] if (ff[1] == 0 and len(ff) == 2) or ff[0] in ('src', 'ef'))
                             k = (s[0], s[1], s[2], r0)
                             if k in groups:
                                 groups[k] = groups[k] & s[3]
@@ -406,6 +432,20 @@ class TermAnalysis:
                     else:
                         cur |= new
                         work.append(nxt)
+        if want == 't2' and err_fields:
+            # contradiction rule: the error paths of one fused iterator must agree on which of its readers they empty or
+            # reset -- a path that empties `input` but leaves `self.remaining_input` lets the next call carry on
+            union = set()
+            for _, flds, deleg in err_fields:
+                union |= flds
+            for sb, flds, deleg in err_fields:
+                missing = union - flds
+                if missing and not deleg:
+                    reason = 'may return Err having emptied/reset only %s of the fields %s that its other error paths empty or reset' % (
+                        sorted(flds), sorted(union))
+                    if (sb, reason) not in fail_seen:
+                        fail_seen.add((sb, reason))
+                        failures.append((sb, reason))
         return failures
 
 
